@@ -1,9 +1,5 @@
-"""D83 (observation on the unchanged code; NOT registered - the leading underscore keeps the registry from discovering
-it: rename to d83_private_alias_id_shift.py together with a known_findings.json entry
-  {"id": "D83", "properties": ["C17"], "signature": "syncobj\\.init:method-id-moved-by-higher-version:private-or-alias",
-   "what": "a name-mangled private replicated method or an alias of a replicated method is enumerated a second time under its
-            plain attribute name with the version of its LAST definition; adding a higher version moves that extra entry
-            behind the old methods and shifts the ids of existing methods"}).
+"""D86 (known finding, listed in known_findings.json with the signature below): adding a higher version shifts the ids of
+existing methods when the class has a name-mangled private replicated method or an alias of a replicated method.
 
 `SyncObj.__init__` enumerates every attribute `m` with `m != origName`. For `def __priv` the class attribute is
 `_Obj__priv` (origName `__priv`), for `alias = f` it is `alias` (origName `f`): both pass the filter and are enumerated
@@ -56,7 +52,7 @@ class Obj(SyncObj):
 def _ids(ns, src):
     from pysyncobj import SyncObj, SyncObjConf, replicated
     g = {"SyncObj": SyncObj, "replicated": replicated}
-    exec(compile(src, "<d83>", "exec"), g)
+    exec(compile(src, "<d86>", "exec"), g)
     o = g["Obj"](ns["Node"]("a"), [], conf=SyncObjConf(autoTick=False), transportClass=ns["DummyTransport"])
     try:
         return [(o._idToMethod[i].origName, o._idToMethod[i].ver, o._idToMethod[i].__name__) for i in range(len(o._idToMethod))]
@@ -83,7 +79,7 @@ def scenario(ctx):
 def run(ctx):
     t0 = time.time()
     viols, sample = scenario(ctx)
-    return result("D83-private-alias-id-shift", tag(viols, "d83", {}), sample, t0)
+    return result("D86-private-alias-id-shift", tag(viols, "d86", {}), sample, t0)
 
 
 def replay(ctx, violation):
